@@ -54,7 +54,7 @@ Section LPoly.
 
   (* __add__ *)
   Definition lp_add (p q : lpoly) : option lpoly :=
-    if lp_isz p then Some (mk (lp_coefs q) (lp_dmin q))
+    if lp_isz p then Some (if lp_isz q then mk [] (lp_dmin q) else mk (lp_coefs q) (lp_dmin q))
     else if lp_isz q then Some (mk (lp_coefs p) (lp_dmin p))
     else if negb (lp_parity p =? lp_parity q) then None
     else let dmin := Z.min (lp_dmin p) (lp_dmin q) in
@@ -68,7 +68,8 @@ Section LPoly.
     if lp_isz p then mk [] (lp_dmin p) else mk (lneg O (lp_coefs p)) (lp_dmin p).
 
   (* __invert__ *)
-  Definition lp_inv (p : lpoly) : lpoly := mk (rev (lp_coefs p)) (- lp_dmax p).
+  Definition lp_inv (p : lpoly) : lpoly :=
+    if lp_isz p then mk [] (- lp_dmin p) else mk (rev (lp_coefs p)) (- lp_dmax p).
 
   (* __sub__ *)
   Definition lp_sub (p q : lpoly) : option lpoly := lp_add p (lp_neg q).
